@@ -337,17 +337,6 @@ def n_solutions(sol, w):
     return sum(hi - lo + 1 for iv in sol.values() for lo, hi in iv)
 
 
-def full_point(key, iv, n, w, pick=0):
-    """a concrete member of the solution set as a full vector"""
-    others = [j for j in range(n) if j != w]
-    x = [None] * n
-    for i, j in enumerate(others):
-        x[j] = key[i]
-    if w is not None:
-        x[w] = iv[0][pick]
-    return x
-
-
 def row_always_holds(row, bounds, fixed, guard):
     """Does the row hold on every box point whose columns in ``fixed`` (j -> value) have that value?
     Enumerates the columns the row mentions when that is small, exact closed form otherwise.
@@ -367,6 +356,36 @@ def row_always_holds(row, bounds, fixed, guard):
     return sum(min(a[j] * lo, a[j] * hi) for j, (lo, hi) in zip(cols, eff)) >= b
 
 
+class _quiet_fds:
+    """HiGHS occasionally printf()s debug lines; keep them out of the check's output."""
+
+    def __enter__(self):
+        import os
+        import sys
+        self.saved = []
+        try:
+            sys.stdout.flush()
+            sys.stderr.flush()
+            null = os.open(os.devnull, os.O_WRONLY)
+            for fd in (1, 2):
+                self.saved.append((fd, os.dup(fd)))
+                os.dup2(null, fd)
+            os.close(null)
+        except OSError:
+            pass
+        return self
+
+    def __exit__(self, *exc):
+        import os
+        for fd, keep in self.saved:
+            try:
+                os.dup2(keep, fd)
+                os.close(keep)
+            except OSError:
+                pass
+        return False
+
+
 def milp_point(rows, bounds, objective, ev):
     """scipy's MILP solver as a *generator* of one candidate point; returns an exactly re-verified
     integer solution inside the box or None."""
@@ -380,9 +399,10 @@ def milp_point(rows, bounds, objective, ev):
         if rows:
             kw["constraints"] = LinearConstraint(np.array([[float(c) for c in a] for _, a in rows]),
                                                  np.array([float(b) for b, _ in rows]), np.inf)
-        res = milp(c=np.array([float(c) for c in objective]), integrality=np.ones(n),
-                   bounds=Bounds([float(lo) for lo, _ in bounds], [float(hi) for _, hi in bounds]),
-                   options={"time_limit": 1.0, "disp": False}, **kw)
+        with _quiet_fds():
+            res = milp(c=np.array([float(c) for c in objective]), integrality=np.ones(n),
+                       bounds=Bounds([float(lo) for lo, _ in bounds], [float(hi) for _, hi in bounds]),
+                       options={"node_limit": 400, "time_limit": 10.0, "disp": False}, **kw)
         if res.x is None:
             ev.count("milp_no_point")
             return None
